@@ -11,13 +11,14 @@ use crate::verif_corpus::schema;
 use crate::verif_vk as vk;
 use std::collections::BTreeSet;
 
-fn try_compile(text: &str) -> Result<bool, String> {
-    let s = schema("numbers");
+fn try_compile(text: &str) -> Result<bool, String> { try_compile_on("numbers", text) }
+fn try_compile_on(schema_name: &str, text: &str) -> Result<bool, String> {
+    let s = schema(schema_name);
     std::panic::catch_unwind(|| crate::frontend::parse(s, text).is_ok())
         .map_err(|p| p.downcast_ref::<String>().cloned().or_else(|| p.downcast_ref::<&str>().map(|s| s.to_string())).unwrap_or_default())
 }
 
-// @grid c10_grid_frontend_never_panics tier=quick bound="about 6000 documents: 0..3 operations and fragments; every sequence of up to 3 directives from a 17-element alphabet (valid, duplicated, malformed arguments) on a property, on an edge and on a fold; the repository's parse-error / frontend-error corpora; truncations of valid queries at every byte"
+// @grid c10_grid_frontend_never_panics tier=quick bound="about 15000 documents: 0..3 operations and fragments; every sequence of up to 3 directives from a 17-element alphabet (valid, duplicated, malformed arguments) on a property, on an edge and on a fold; the repository's parse-error / frontend-error corpora; every kind of field name (property, list property, edge, parameterized edge, __typename, __schema, type name, unknown) x 8 selection shapes x 8 decorations at the root, nested, under a coercion and inside a fold; 22 filter operators x 14 property types x 8 argument forms (variables, tags of 5 types, malformed) on the nullables schema, shared variables, count filters; truncations of valid queries at every byte"
 // @ob for every document of the family, compiling against a valid schema returns Ok or Err and does not panic
 pub(crate) fn c10_grid_frontend_never_panics() {
     let mut n = 0u64;
@@ -38,7 +39,7 @@ pub(crate) fn c10_grid_frontend_never_panics() {
         r#"{ Number(max: 3) @fold { value @output } }"#.into(), r#"{ Number(max: 3) @optional { value @output } }"#.into(), r#"{ Number(max: 3) @output { value } }"#.into(),
         r#"{ Number(max: 3) { value @output } Zero { value @output(name: "z") } }"#.into(), r#"{ alias: Number(max: 3) { v: value @output } }"#.into(),
         r#"{ Number(max: $m) { value @output } }"#.into(), r#"{ Number(max: [1]) { value @output } }"#.into(), r#"{ Number(max: {a: 1}) { value @output } }"#.into(), r#"{ Number(max: 3, max: 4) { value @output } }"#.into(),
-        r#"{ Number(max: 3) { __typename @output __schema { x } } }"#.into(), r#"{ __typename @output }"#.into(), r#"{ Number(max: 3) { value @output value @output } }"#.into(),
+        r#"{ Number(max: 3) { __typename @output __schema { x } } }"#.into(), r#"{ __typename @output }"#.into(), "{ __typename }".into(), "{ __typename { value @output } }".into(), r#"{ Number(max: 3) { value @output value @output } }"#.into(),
     ];
     for (i, d) in docs.iter().enumerate() { vk::grid_case(format_args!("doc {}", i)); check(&format!("document #{i} `{d}`"), d, &mut failures); n += 1; }
     // 2. directive sequences
@@ -60,7 +61,7 @@ pub(crate) fn c10_grid_frontend_never_panics() {
         check(&format!("directives after a fold count `{s}`"), &format!(r#"{{ Number(max: 3) {{ value @output(name: "v0") multiple(max: 2) @fold @transform(op: "count") {s} {{ value @output(name: "mv") }} }} }}"#), &mut failures);
         n += 4;
     }
-    // 3. the repository's error corpora and truncations of valid queries
+    // 3. the repository's error corpora and every kind of field name (property, list property, edge, parameterized edge, __typename, __schema, type name, unknown) x 8 selection shapes x 8 decorations at the root, nested, under a coercion and inside a fold; 22 filter operators x 14 property types x 8 argument forms (variables, tags of 5 types, malformed) on the nullables schema, shared variables, count filters; truncations of valid queries
     for dir in ["parse_errors", "frontend_errors"] {
         let mut names: Vec<String> = std::fs::read_dir(format!("test_data/tests/{dir}")).unwrap().filter_map(|e| e.ok()).map(|e| e.file_name().to_string_lossy().to_string()).filter(|n| n.ends_with(".graphql.ron")).collect();
         names.sort();
@@ -72,6 +73,51 @@ pub(crate) fn c10_grid_frontend_never_panics() {
     }
     let valid = r#"{ Number(min: 0, max: 3) { value @output @tag(name: "v") multiple(max: 3) @fold @transform(op: "count") @filter(op: ">", value: ["$x"]) @output(name: "c") { value @filter(op: ">", value: ["%v"]) @output(name: "m") } } }"#;
     for cut in 0..valid.len() { if valid.is_char_boundary(cut) { check(&format!("truncation at byte {cut}"), &valid[..cut], &mut failures); n += 1; } }
+    // 4. every kind of field name in every position and shape
+    let fields = ["value", "name", "vowelsInName", "successor", "multiple(max: 2)", "multiple", "__typename", "__schema", "nonexistent", "Number", "Number(max: 2)", "Zero", "primeFactor", "value(max: 2)"];
+    let shapes = ["", "{ value @output }", "{ ... on Prime { value @output } }", "{ ... on Letter { name @output } }", "{ __typename @output }", "{ }", "{ successor { value @output } }", "{ ... on Number { ... on Prime { value @output } } }"];
+    let decorations = ["", "@output", "@fold", "@optional", "@recurse(depth: 2)", r#"@tag(name: "t")"#, r#"@filter(op: "=", value: ["$x"])"#, r#"@fold @transform(op: "count") @output"#];
+    for f in fields { for sh in shapes { for dec in decorations {
+        vk::grid_case(format_args!("field `{}` shape `{}` decoration `{}`", f, sh, dec));
+        check(&format!("root field `{f} {dec} {sh}`"), &format!("{{ {f} {dec} {sh} }}"), &mut failures);
+        check(&format!("nested field `{f} {dec} {sh}`"), &format!(r#"{{ Number(max: 3) {{ value @output(name: "v0") {f} {dec} {sh} }} }}"#), &mut failures);
+        check(&format!("field under a coercion `{f} {dec} {sh}`"), &format!(r#"{{ Number(max: 3) {{ ... on Composite {{ value @output(name: "v0") {f} {dec} {sh} }} }} }}"#), &mut failures);
+        check(&format!("field inside a fold `{f} {dec} {sh}`"), &format!(r#"{{ Number(max: 3) {{ value @output(name: "v0") multiple(max: 2) @fold {{ {f} {dec} {sh} }} }} }}"#), &mut failures);
+        n += 4;
+    } } }
+    // 5. every filter operator on every property type with every kind of argument (nullables schema: all scalar and list types)
+    let ops = ["=", "!=", "<", "<=", ">", ">=", "contains", "not_contains", "one_of", "not_one_of", "has_prefix", "not_has_prefix", "has_suffix", "not_has_suffix", "has_substring", "not_has_substring", "regex", "not_regex", "is_null", "is_not_null", "bogus", ""];
+    let props = ["integer", "nonNullInteger", "float", "nonNullFloat", "string", "nonNullString", "bool", "nonNullBool", "intList", "nonNullIntList", "intNonNullList", "nonNullIntAndList", "neighbor", "__typename"];
+    for op in ops { for pr in props {
+        vk::grid_case(format_args!("filter op `{}` on `{}`", op, pr));
+        for value in [r#", value: ["$x"]"#, r#", value: ["%t"]"#, "", r#", value: ["$x", "$y"]"#, r#", value: []"#, r#", value: ["x"]"#, r#", value: "$x""#, r#", value: ["$x"], extra: 1"#] {
+            for tagged in ["integer", "string", "bool", "intList", "float"] {
+                if !value.contains("%t") && tagged != "integer" { continue; }
+                let q = format!(r#"{{ MainType {{ {tagged} @tag(name: "t") @output(name: "o0") neighbor {{ {pr} @filter(op: "{op}"{value}) @output(name: "o1") }} }} }}"#);
+                if let Err(m) = try_compile_on("nullables", &q) { failures.insert(format!("filter `{op}`{value} on {pr} (tag on {tagged}): panic({})", m.lines().next().unwrap_or(""))); }
+                n += 1;
+            }
+        }
+        // the same variable used with two operators on two property types
+        for op2 in ["=", "<", "contains", "one_of", "has_prefix", "regex"] {
+            let q = format!(r#"{{ MainType {{ {pr} @filter(op: "{op}", value: ["$x"]) @output(name: "o0") neighbor {{ string @filter(op: "{op2}", value: ["$x"]) intList @filter(op: "{op2}", value: ["$x"]) @output(name: "o1") }} }} }}"#);
+            if let Err(m) = try_compile_on("nullables", &q) { failures.insert(format!("variable shared by `{op}` on {pr} and `{op2}`: panic({})", m.lines().next().unwrap_or(""))); }
+            n += 1;
+        }
+        // count filters
+        let q = format!(r#"{{ MainType {{ integer @tag(name: "t") @output(name: "o0") neighborList @fold @transform(op: "count") @filter(op: "{op}", value: ["$x"]) @filter(op: "{op}", value: ["%t"]) {{ {pr} @output(name: "o1") }} }} }}"#);
+        if let Err(m) = try_compile_on("nullables", &q) { failures.insert(format!("count filter `{op}` with outputs {pr}: panic({})", m.lines().next().unwrap_or(""))); }
+        n += 1;
+    } }
     vk::grid_done("c10_grid_frontend_never_panics", n);
-    if !failures.is_empty() { panic!("the frontend panicked: {{{}}}", failures.into_iter().take(10).collect::<Vec<_>>().join("; ")); }
+    if !failures.is_empty() {
+        // one entry per panic message: how many documents hit it and the first of them
+        let mut classes: std::collections::BTreeMap<String, (usize, String)> = Default::default();
+        for f in &failures {
+            let (label, msg) = f.rsplit_once(": panic(").unwrap_or((f.as_str(), ""));
+            let e = classes.entry(msg.trim_end_matches(')').to_string()).or_insert((0, label.to_string()));
+            e.0 += 1;
+        }
+        panic!("the frontend panicked: {{{}}}", classes.into_iter().map(|(m, (c, l))| format!("panic({m}) on {c} documents, first: {l}")).collect::<Vec<_>>().join("; "));
+    }
 }
